@@ -512,6 +512,8 @@ func (s *Serializer) Deserialize(src []byte, dst *ParsedJson) (*ParsedJson, erro
 
 	// Decompress strings
 	var sWG sync.WaitGroup
+	// Also on the error returns below: the decompressors write to dst.
+	defer sWG.Wait()
 	var stringsErr, msgErr error
 	err := s.decBlock(br, dst.Strings.B, &sWG, &stringsErr)
 	if err != nil {
@@ -533,7 +535,6 @@ func (s *Serializer) Deserialize(src []byte, dst *ParsedJson) (*ParsedJson, erro
 	if err != nil {
 		return dst, err
 	}
-	defer sWG.Wait()
 
 	// Decompress tags
 	if tags, err := binary.ReadUvarint(br); err != nil {
